@@ -104,7 +104,7 @@ var booleanFlags = map[string]bool{
 }
 
 var flagSet = flag.NewFlagSet("garble", flag.ExitOnError)
-var rxGarbleFlag = regexp.MustCompile(`-(?:literals|tiny|debug|debugdir|seed)(?:$|=)`)
+var rxGarbleFlag = regexp.MustCompile(`^--?(?:literals|tiny|debug|debugdir|seed)(?:$|=)`)
 
 var (
 	flagLiterals bool
